@@ -15,6 +15,7 @@ import (
 	"encoding/base64"
 	"encoding/xml"
 	"errors"
+	"math"
 	"strconv"
 	"strings"
 	"time"
@@ -133,7 +134,17 @@ func (d *Data) UnmarshalXML(dec *xml.Decoder, start xml.StartElement) error {
 	}
 	d.CID = v.CID
 	if v.MaxAge != nil {
-		d.MaxAge = time.Duration(*v.MaxAge) * time.Second
+		// A Duration holds about 292 years; an age of more seconds than that is
+		// clamped instead of wrapping around to a negative (or arbitrary) duration.
+		const maxSeconds = int64(math.MaxInt64 / time.Second)
+		switch {
+		case *v.MaxAge > maxSeconds:
+			d.MaxAge = math.MaxInt64
+		case *v.MaxAge < -maxSeconds:
+			d.MaxAge = math.MinInt64
+		default:
+			d.MaxAge = time.Duration(*v.MaxAge) * time.Second
+		}
 	}
 	d.NoCache = v.MaxAge != nil && *v.MaxAge == 0
 	d.Type = v.Type
